@@ -694,9 +694,14 @@ func (fc *FnCtx) typeAssert(x *ssa.TypeAssert, st *State, g *smt.Term, where str
 	at := x.AssertedType
 	var ok *smt.Term
 	var res Val
-	if _, isIface := at.Underlying().(*types.Interface); isIface {
+	if ai, isIface := at.Underlying().(*types.Interface); isIface {
 		fn := fc.implementsFn(at)
 		ok = smt.And(smt.Neq(ref, smt.IntLit(0)), smt.App(fn, smt.Bool, fc.dtype(ref)))
+		if si, isI := x.X.Type().Underlying().(*types.Interface); isI && types.Implements(x.X.Type(), ai) && si != nil {
+			// the static type of the operand already guarantees the asserted interface:
+			// only a nil value can make the assertion fail
+			ok = smt.Neq(ref, smt.IntLit(0))
+		}
 		res = Val{T: ref, GoT: at}
 	} else {
 		ok = smt.And(smt.Neq(ref, smt.IntLit(0)), smt.Eq(fc.dtype(ref), fc.typeID(at)))
